@@ -24,7 +24,8 @@ from harness.lib.coqio import to_coq
 INFLIGHT = "metadata/inflight"
 OPS = {"exists": "E", "open_file": "O", "read_file": "R", "list_files": "L", "get_modified_time": "S", "delete_file": "D"}
 FAULT_CODE = {"raise": 1, "missing": 1, "raisex": 2, "bad": 3}
-FAULT_CTOR = {"raise": "FRaise", "missing": "FRaise", "raisex": "FRaiseX", "bad": "FBad"}
+FAULT_CTOR = {"raise": "FRaise", "missing": "FRaise", "raisex": "FRaiseX", "bad": "FBad",
+              "stream1": "FRaise", "stream2": "FRaiseX", "stream3": "FBad"}
 
 
 HINT_KEY = "metadata.version-hint.text"
@@ -74,6 +75,75 @@ def parse_avro(bs: bytes) -> Tuple[str, Optional[List[str]]]:
     return "notavro", None
 
 
+CAUGHT_BY_READERS = (ValueError, IndexError, StopIteration, OSError)   # pinned by translator/gen_norm.py (AVRO_CAUGHT)
+
+
+def avro_probe(stream: Any) -> Dict[str, Any]:
+    """Decode an Avro container record by record, independently of datashard.
+
+    -> {"state": "complete" | "partial" | "noheader", "kind": "list" | "manifest" | None, "paths": [decoded so far],
+        "caught": bool (the failure is of the class the library's readers answer with the JSON fallback), "error": str}
+    "partial": the header was read, `paths` were decoded, THEN the stream failed (damaged later record / block / sync
+    marker, read error mid-stream)."""
+    out: Dict[str, Any] = {"state": "noheader", "kind": None, "paths": [], "records": [], "caught": True, "error": ""}
+    try:
+        rd = fastavro.reader(stream)
+        ws = rd.writer_schema if isinstance(rd.writer_schema, dict) else {}
+        fields = {f.get("name") for f in ws.get("fields", []) if isinstance(f, dict)}
+    except Exception as e:  # noqa: BLE001
+        out["caught"] = isinstance(e, CAUGHT_BY_READERS)
+        out["error"] = f"{type(e).__name__}: {str(e)[:80]}"
+        return out
+    # what the records ARE is decided by their fields (the library's readers index the record, they do not look at its name)
+    out["kind"] = "list" if "manifest_path" in fields else "manifest" if "data_file" in fields else None
+    out["state"] = "partial"
+    if out["kind"] is None:
+        out["caught"], out["error"] = False, "KeyError: the records carry neither manifest_path nor data_file"
+        return out
+    try:
+        for r in rd:
+            out["paths"].append(r["manifest_path"] if out["kind"] == "list" else r["data_file"]["file_path"])
+            out["records"].append(r)
+    except Exception as e:  # noqa: BLE001
+        out["caught"] = isinstance(e, CAUGHT_BY_READERS)
+        out["error"] = f"{type(e).__name__}: {str(e)[:80]}"
+        return out
+    out["state"] = "complete"
+    return out
+
+
+class FaultyStream:
+    """A read stream over `data` that misbehaves at offset k.  mode "raise": the read that would cross k raises OSError
+    (connection reset mid-download); mode "eof": the stream silently ends at k (short read)."""
+
+    def __init__(self, data: bytes, mode: str, k: int):
+        self.data, self.mode, self.k, self.pos = data, mode, k, 0
+
+    def read(self, n: int = -1) -> bytes:
+        end = len(self.data) if n is None or n < 0 else min(len(self.data), self.pos + n)
+        if self.mode == "raise" and end > self.k:
+            raise OSError(104, "injected: connection reset while reading the stream")
+        if self.mode == "eof":
+            end = min(end, self.k)
+        out = self.data[self.pos:end]
+        self.pos = max(self.pos, end)
+        return out
+
+    def close(self) -> None:
+        pass
+
+    def __enter__(self) -> "FaultyStream":
+        return self
+
+    def __exit__(self, *a: Any) -> None:
+        pass
+
+
+def as_file(bs: bytes) -> Any:
+    """Bytes as the kind of stream the local backend hands out (a buffered binary file: read(n < -1) raises ValueError)."""
+    return io.BufferedReader(io.BytesIO(bs))      # type: ignore[arg-type]
+
+
 def classify(key: str, bs: bytes) -> Tuple[str, Any]:
     """Content class of a file, as Model/GC.v `content` (independent of datashard)."""
     if key.startswith(INFLIGHT + "/"):
@@ -83,10 +153,12 @@ def classify(key: str, bs: bytes) -> Tuple[str, Any]:
         except Exception:
             return ("marker", None)
     if key.startswith("metadata/manifests/") or key.startswith("data/"):
-        kind, paths = parse_avro(bs)
-        if kind in ("list", "manifest"):
-            return (kind + ":avro", paths)
-        if kind == "trunc":
+        pr = avro_probe(as_file(bs))
+        if pr["state"] == "complete":
+            return (pr["kind"] + ":avro", pr["paths"])
+        if pr["state"] == "partial":
+            return ("partial", (pr["paths"], pr["caught"]))
+        if not pr["caught"]:
             return ("trunc", None)
         try:
             d = json.loads(bs.decode("utf-8"))
@@ -112,6 +184,8 @@ def content_term(c: Tuple[str, Any]) -> str:
         return f"(CManifest {'FAvro' if kind.endswith('avro') else 'FJson'} {to_coq(list(v))})"
     if kind == "trunc":
         return "CTruncAvro"
+    if kind == "partial":
+        return f"(CPartialAvro {to_coq(list(v[0]))} {'true' if v[1] else 'false'})"
     if kind == "garbage":
         return "CGarbage"
     if kind == "jsonempty":
@@ -270,11 +344,20 @@ class TracingStorage:
             occ = self._seen.get((code, path), 0)
             self._seen[(code, path)] = occ + 1
             kind = None
+            hit: Dict[str, Any] = {}
             for f in self._plan:
                 if f["op"] == code and f["key"] == path and f["occ"] == occ:
-                    kind = f["kind"]
+                    kind, hit = f["kind"], f
                     break
-            self.trace.append((code, path, FAULT_CODE.get(kind, 0) if kind else 0))
+            self.trace.append((code, path, (hit.get("code") or FAULT_CODE.get(kind, 0)) if kind else 0))
+            if kind == "stream":
+                # the stream misbehaves part-way: `code` says what that amounts to for the model (see c07.stream_faults)
+                real = attr(path, *a, **kw)
+                try:
+                    data = real.read()
+                finally:
+                    real.close()
+                return FaultyStream(data, hit["mode"], hit["k"])
             if kind == "raise":
                 raise OSError(5, f"injected I/O error on {name}({path})")
             if kind == "missing":
@@ -450,6 +533,41 @@ def compare(real: Dict[str, Any], before: Dict[str, float], after: Dict[str, flo
     elif [t for t in rt if t[0] == "L"] != [t for t in mt if t[0] == "L"]:
         diffs.append("order of the listing calls differs")
     return diffs
+
+
+class CaseTimeout(Exception):
+    """A library operation exceeded its time budget (reported as a violation, never a stuck check)."""
+
+
+class bounded:
+    """with bounded(seconds): ...   -- SIGALRM-based limit for one library operation in a worker process."""
+
+    def __init__(self, seconds: float):
+        self.seconds = seconds
+
+    def __enter__(self) -> "bounded":
+        import signal
+
+        def on_alarm(_sig: int, _frm: Any) -> None:
+            raise CaseTimeout(f"library operation still running after {self.seconds:.0f} s")
+        self._old = signal.signal(signal.SIGALRM, on_alarm)
+        signal.setitimer(signal.ITIMER_REAL, self.seconds)
+        return self
+
+    def __exit__(self, *a: Any) -> None:
+        import signal
+        signal.setitimer(signal.ITIMER_REAL, 0)
+        signal.signal(signal.SIGALRM, self._old)
+
+
+def limit_worker_memory(gib: float = 6.0) -> None:
+    """Pool initializer: runaway allocation in the library under test becomes MemoryError in that worker."""
+    import resource
+    lim = int(gib * (1 << 30))
+    try:
+        resource.setrlimit(resource.RLIMIT_AS, (lim, lim))
+    except (ValueError, OSError):
+        pass
 
 
 def chunk_for(n: int) -> int:
